@@ -386,10 +386,12 @@ def struct_cases(draw, tier):
     c['outfield'] = draw(st.sampled_from([None, None, 'value', 'value']))
     # online monitors: reset() before the first update, or the whole input once, reset(), and the whole input again
     c['reset'] = draw(st.sampled_from([None, None, 'first', 'again']))
+    # the caller replays a full logged row: the update also lists an entry under the name of the output object
+    c['echo_output'] = draw(st.integers(0, 3)) == 0
     return c
 
 
-def run_struct(kind, f, vs, data, paths, structured, sem=None, objio=None, outfield=None, reset=None):
+def run_struct(kind, f, vs, data, paths, structured, sem=None, objio=None, outfield=None, reset=None, echo=False):
     from ..structs import Msg, PATHS
     dense = kind.startswith('ct')
     base = {'dt_off': 'dt_off', 'dt_on': 'dt_on', 'dt_on_past': 'dt_on', 'ct_off': 'ct_off', 'ct_on': 'ct_on'}[kind]
@@ -440,12 +442,13 @@ def run_struct(kind, f, vs, data, paths, structured, sem=None, objio=None, outfi
                 ds = {'time': [float(i) for i in range(n)]}
                 ds.update(cols)
                 return ('ok', spec.evaluate(ds))
+            extra = [('res', 0.0)] if (echo and structured and outfield) else []
             if reset == 'first':
                 spec.reset()
             elif reset == 'again':
-                [spec.update(i, [(k, col[i]) for k, col in cols.items()]) for i in range(n)]
+                [spec.update(i, [(k, col[i]) for k, col in cols.items()] + extra) for i in range(n)]
                 spec.reset()
-            return ('ok', [spec.update(i, [(k, col[i]) for k, col in cols.items()]) for i in range(n)])
+            return ('ok', [spec.update(i, [(k, col[i]) for k, col in cols.items()] + extra) for i in range(n)])
         sig = to_time({v: data[v] for v in vs}, Q)
         if structured:
             stamps = [t for t, _ in sig[vs[0]]]
@@ -460,7 +463,7 @@ def run_struct(kind, f, vs, data, paths, structured, sem=None, objio=None, outfi
         first = [[n_, [p for p in s if p[0] <= mid]] for n_, s in args]
         rest = [[n_, [p for p in s if p[0] > mid]] for n_, s in args]
         def copy(a):
-            return [[n_, [list(p) for p in s]] for n_, s in a]
+            return [[n_, [list(p) for p in s]] for n_, s in a] + ([['res', [[s[0][0], 0.0] for _n, s in a[:1] if s]]] if (echo and structured and outfield) else [])
         if reset == 'first':
             spec.reset()
         elif reset == 'again':
@@ -496,7 +499,10 @@ def check_struct(case):
     plain = run_struct(kind, f, vs, data, case['paths'], False, reset=rs)
     if plain[0] != 'ok':
         return DISCARD('plain-raises(other lanes):' + plain[1], labels)
-    st_ = run_struct(kind, f, vs, data, case['paths'], True, outfield=case.get('outfield'), reset=rs)
+    echo = bool(case.get('echo_output')) and kind in ('dt_on', 'dt_on_past', 'ct_on') and bool(case.get('outfield'))
+    if echo:
+        labels.append('update-lists-the-output-object')
+    st_ = run_struct(kind, f, vs, data, case['paths'], True, outfield=case.get('outfield'), reset=rs, echo=echo)
     desc = 'monitor %s\nspec over plain variables: %s\nfield paths: %s%s\ndata: %s' % (kind, show(f), {v: '.'.join(case['paths'][v]) for v in vs},
                                                                                        ('; the verdict is written to res.%s' % case['outfield'] if case.get('outfield') else '') + ('; reset() before the first update' if rs == 'first' else '; the input once, reset(), the input again' if rs == 'again' else ''), {v: data[v] for v in vs})
     if st_[0] != 'ok':
